@@ -39,7 +39,7 @@ def classify(case, obs):
     for o in ops:
         f = o.split(",")
         if f[0] == "1" and len(f) > 2:
-            kinds.add({"1": "q1", "2": "q2", "3": "sub", "4": "unsub", "5": "ready", "6": "q0", "7": "stream"}.get(f[2], "?"))
+            kinds.add({"1": "q1", "2": "q2", "3": "sub", "4": "unsub", "5": "ready", "6": "q0", "7": "stream", "8": "q1big"}.get(f[2], "?"))
     last = obs.split(";")[-1].split(",")
     closed = "closed" if len(last) > 7 and last[7] == "0" else "open"
     return "%s, %s at end" % ("+".join(sorted(kinds)) or "no task", closed)
